@@ -13,6 +13,7 @@ import common
 from common import blit
 from props import c12_ops as ops
 from props import c12_gen as gen
+from props import c12_ambient as amb
 from props.c12_ops import FMT, BITS
 
 def zlit(n):
@@ -30,6 +31,11 @@ FIDX = {'hp': 0, 'sp': 1, 'dp': 2}
 def classify(d):
     """finding id if the discrepancy d = {op, args, observed, expected} has the signature of a recorded defect"""
     op, a, obs, exp = d['op'], d['args'], d['observed'], d['expected']
+    # TOFLOAT-CTX: FPNum.to_float computes with Decimal in the caller's context: wrong once the precision is below what a double needs
+    if str(d.get('ambient', '')).startswith('decimal:') and int(d['ambient'].split(':')[1]) < 28:
+        if op == 'fpnum_to_float': return 'C12-TOFLOAT-CTX'
+        if op == 'fpnum_from_float' and isinstance(obs, list) and isinstance(exp, list) and obs[0] == exp[0] and obs[2] == exp[2]: return 'C12-TOFLOAT-CTX'
+    if d.get('ambient'): return None
     # 16: sp_to_ieee754_parts returns (0,0,0) for every zero: the sign of -0.0 is lost (single precision only)
     if op in ('fph_encode', 'fph_encode_parts', 'fph_stored') and (a[0] == 'sp' or op == 'fph_stored'):
         xh = a[-1]
@@ -74,6 +80,12 @@ class Sweep:
             self.ndisc[k] = self.ndisc.get(k, 0) + 1
             if k not in self.disc: self.disc[k] = d
         return obs
+
+    def add(self, d, tag):
+        fid = classify(d)
+        k = (d['op'] + '@' + tag, fid)
+        self.ndisc[k] = self.ndisc.get(k, 0) + 1
+        if k not in self.disc: self.disc[k] = d
 
     def report(self):
         """known -> KNOWN-FINDING line; anything else -> VIOLATION.  returns number of violations"""
@@ -194,6 +206,40 @@ def oracle_sweep(ctx, H, rng):
         for prec in (5, 8, 11):
             sw.run('reduce_exp', (float(x).hex(), prec), ('reduce_exp', x, prec))
     return sw
+
+
+# ------------------------------------------------------------------ ambient-state family
+def ambient_family(ctx, H, sw):
+    """the helpers must give the same results whatever numeric state the process is in: perturbed decimal context, and after one
+    instance of every library block has been constructed (a constructor that leaks state shows up here with its name)"""
+    import decimal
+    rng = random.Random(ctx.seed * 7919 + 12)
+    cases = amb.sample_cases(rng)
+    clean_state = amb.numeric_state()
+    base = amb.evaluate(H, cases)
+    canary_base = amb.evaluate(H, amb.CANARY)
+    def compare(tag, kind, res):
+        for (name, args), (o, e), (o0, e0) in zip(cases, res, base):
+            ctx.count(('ambient', tag, name, json.dumps(args, default=str)))
+            if o != o0:
+                sw.add({'op': name, 'args': json.loads(json.dumps(list(args))), 'observed': o, 'expected': e, 'ambient': tag,
+                        'observed_on_clean_process_state': o0}, kind)
+    for prec, rounding in ((9, 'ROUND_HALF_EVEN'), (5, 'ROUND_DOWN'), (28, 'ROUND_UP'), (60, 'ROUND_HALF_EVEN')):
+        with amb.perturbed_decimal(prec, rounding):
+            res = amb.evaluate(H, cases)
+        compare('decimal:%d:%s' % (prec, rounding), 'decimal', res)
+    saved = decimal.getcontext().copy()
+    changed = []
+    try:
+        built, failed, leaks = amb.build_blocks(H, rng, canary_base, changed.append)
+        res = amb.evaluate(H, cases)
+        state_after = amb.numeric_state()
+    finally:
+        decimal.setcontext(saved)
+    compare('after constructing library blocks (results first change after: %s)' % (changed[0] if changed else 'none'), 'blocks', res)
+    ctx.notes['ambient'] = {'sample_cases': len(cases), 'blocks_built': len(built), 'blocks_not_buildable': failed[:20],
+                            'numeric_state_clean': clean_state, 'numeric_state_after_blocks': state_after,
+                            'constructors_that_changed_numeric_state': [l for l, _ in leaks][:10], 'results_first_change_after': changed[:3]}
 
 
 # ------------------------------------------------------------------ correspondence inside Coq (tie + spec column)
@@ -385,6 +431,7 @@ def run(ctx):
     # 1. oracle sweep = property on the implementation + search
     with common.quiet():
         sw = oracle_sweep(ctx, H, rng)
+    ambient_family(ctx, H, sw)
     nviol = sw.report()
     T['oracle_sweep'] = round(time.time() - t0, 1); t0 = time.time()
     ctx.sample({'op': 'fpnum_round_trip', 'args': ['dp', 0x4005BF0A89F1B0DD], 'result': list(ops.call(H, 'fpnum_round_trip', ('dp', 0x4005BF0A89F1B0DD)))})
@@ -445,8 +492,14 @@ def replay(rp):
     H = common.quiet_import().helper
     if 'op' not in rp:
         print(json.dumps(rp, indent=1)[:3000]); return 0
-    with common.quiet():
-        obs, exp = ops.call(H, rp['op'], rp['args'])
+    if rp.get('ambient'):
+        with amb.apply_ambient(H, rp['ambient']):
+            with common.quiet():
+                obs, exp = ops.call(H, rp['op'], rp['args'])
+        print('ambient  :', rp['ambient'])
+    else:
+        with common.quiet():
+            obs, exp = ops.call(H, rp['op'], rp['args'])
     print('op       :', rp['op'], rp['args'])
     print('observed :', obs)
     print('expected :', exp)
